@@ -25,7 +25,14 @@ class C13(Prop):
         "C13_class", "C13_mandatory", "C13_carries_amf", "C13_carries_ran", "C13_carries_nas", "C13_carries_psi",
         "C13_carries_name", "C13_carries_psilist", "C13_carries_gnbid_ngsetup", "C13_carries_gnbid_handover",
         "C13_carries_tla", "ip4_hole", "C13_plmn",
-    ]]
+        "skeleton_table", "skeleton_facts", "C13_encodes", "C13_decodes_back", "C13_in_range", "reach_table", "C13_refuses",
+        "reach_list_table", "C13_refuses_list",
+    ]] + ["Stgutg.Proofs.BuildersOk." + t for t in ["okV_regular", "okV_conf", "okV_spec", "okV_marshal"]] + [
+        "Stgutg.Proofs.BuildersTm.tmOK_sound", "Stgutg.Proofs.BuildersRoles.explicit_sound",
+        "Stgutg.Proofs.BuildersRefuse.badV_refused", "Stgutg.Proofs.BuildersRefuse.tmReach_sound",
+        "Stgutg.Proofs.BuildersRefuse.tmReachList_sound",
+        "Stgutg.Proofs.BuildersRange.selected_builds", "Stgutg.Proofs.BuildersRange.okV_pdu_encodes",
+        "Stgutg.Proofs.BuildersRange.okV_pdu_decodes"]
     domains = [Domain("builders", 200, 3000)]
     rule = ("builders: every Build*/Get* function of ngapTestpacket/packet.go (52 builders + 14 wrappers, registry regenerated from "
             "the sources) at random and boundary arguments: ids at 0, 2^32-1, 2^32, 2^40-1, 2^40 and negative, NAS-PDU of 0..5000 "
@@ -41,18 +48,32 @@ class C13(Prop):
                     "Spec/Ts38413.lean: procedure codes, message classes and the clause 9.2 mandatory-IE tables of the messages "
                     "the emulator sends, transcribed by hand",
                     "net.ParseIP and hex.DecodeString are parameters (`Ext`) of every theorem"]
-    partial_note = ("Proved for every template of the table (14 wrappers, 15 hand templates, 35 probed templates), all arguments, all "
+    partial_note = ("Proved for every template of the table (14 wrappers, 15 hand templates, 35 probed templates), all "
                     "TestPlmn states and all externals: class/procedure code, mandatory IEs with criticality, and that the "
                     "AMF/RAN UE NGAP ids, NAS-PDU, PDU session id(s), RAN node name, gNB id, GTP transport address and every "
-                    "PLMNIdentity position of the PDU are the arguments / TestPlmn. 'encodes for all in-range arguments' and "
-                    "'out-of-range identifiers are refused' are decided by the correspondence run against the specification row "
-                    "(buildsum: spec = err for ids outside 0..2^40-1 / 0..2^32-1 / 0..255), not by a theorem: the generic "
-                    "Conforms -> encode ok theorem of C03 is not proved for composite types.")
+                    "PLMNIdentity position of the PDU are the arguments / TestPlmn (all arguments); C13_encodes: for ALL in-range "
+                    "arguments (InRange; role by role in C13_in_range/ArgsInRange: AMF-UE-NGAP-ID 0..2^40-1, RAN-UE-NGAP-ID "
+                    "0..2^32-1, PDU session ids 0..255 in lists of 1..256, 3-octet PLMN, IPv4 text net.ParseIP accepts, non-empty "
+                    "name, gNB id of 22..32 bits, any NAS-PDU; caller-supplied ngapType values of the AMF-side builders: conforming "
+                    "to the type at their position) the builder returns a PDU, ngap.Encoder (model) returns octets and they are the "
+                    "X.691 encoding; C13_decodes_back: the decoder model returns that PDU; C13_refuses / C13_refuses_list: an "
+                    "AMF-UE-NGAP-ID / RAN-UE-NGAP-ID / PDU session id (scalar, or an element of the PDU session id list) outside "
+                    "its range (negative or above 2^40-1 / 2^32-1 / 255) is never encoded, whatever the other arguments. Method: a "
+                    "kernel-decided static analysis of every skeleton against the regenerated schema (skeleton_table, reach_table, "
+                    "reach_list_table) + its soundness (tmOK_sound, tmReach_sound, tmReachList_sound, badV_refused) + C03/C04. "
+                    "The analysis found F37 (BuildPDUSessionResourceReleaseCommand tagged the RAN paging priority with IE id 52 "
+                    "instead of 83: the library's encoder refused its own builder's PDU; fixed in /repo f4784a9, the table now passes "
+                    "without exception). One stated exception remains: the constants of BuildHandoverNotify / BuildLocationReport "
+                    "carry set bits beyond a 28-bit cell identity (encoded - the encoder masks them - but the decoder returns the "
+                    "masked octets): excluded from C13_decodes_back only (NonCanonicalConst). Still decided by the correspondence "
+                    "run only: the tie template = builder (probed / hand templates are models by observation).")
     level_text = ("Lean theorems for all arguments over hand-written and probed builder templates (kernel-decided table facts + "
                   "carrier lemmas): procedure code/class, mandatory IEs with criticality, ids/NAS-PDU/PSI/name/gNB id/address/PLMN "
-                  "are the caller's; templates tied to build.go/packet.go by a differential run of every builder")
-    level_note = ("templates are tied to the code differentially (probed + corresponded), not by a syntactic translator; range refusal "
-                  "is decided by the correspondence run against the spec row, not by a theorem")
+                  "are the caller's; encodes for all in-range arguments (= X.691 encoding, decoded back) and refuses out-of-range "
+                  "identifiers (static skeleton analysis decided by the kernel + soundness + C03/C04); templates tied to "
+                  "build.go/packet.go by a differential run of every builder")
+    level_note = ("templates are tied to the code differentially (probed + corresponded), not by a syntactic translator; "
+                  "one stated exception for the round trip only (two builders' constants are not canonical bit strings)")
 
     def key(self, op, impl, model, spec):
         t = op.split(" ")
